@@ -1600,7 +1600,8 @@ impl Gen {
                     }
                     3 | 4 | 5 | 6 => {
                         let d = r.below(e.denoms.len() as u64);
-                        Op::FAdd { s, funds: vec![], denom: d, decimals: match r.below(12) { 0 => 19 + r.below(12) as u8, 1 => 255, _ => r.below(19) as u8 } }
+                        // often with coins of the denom attached (the factory must hold some of it; attaching them to the call is the usual way)
+                        Op::FAdd { s, funds: if r.chance(1, 3) { vec![(d, 1 + r.below(5000) as u128)] } else { vec![] }, denom: d, decimals: match r.below(12) { 0 => 19 + r.below(12) as u8, 1 => 255, _ => r.below(19) as u8 } }
                     }
                     7 => Op::FMig { s, funds: vec![], p: if r.chance(4, 5) { pm.addr } else { u },
                                      code: match r.below(4) { 0 => Some(e.pair_code), 1 => Some(e.pair_code + 77), _ => None } },
